@@ -20,6 +20,10 @@ Fault enumeration (unload-point enumeration) on the real overlays with *default*
   overlay runs, (iii) no asyncio task or timer created in the node's context is pending and register_task /
   request_cache.add schedule nothing, (iv) every FakeTransport opened by the node is closed.
 
+One scenario family runs a real ``ipv8_service.IPv8`` (configuration dict, endpoint_override = the node's tap, three
+overlays with a RandomWalk each, ticking through its own on_tick task) and unloads one overlay at run time with
+``IPv8.unload_overlay``; sends are attributed to the overlay by community prefix there.
+
 Plus the TaskManager-only part: every sequence (up to a depth, modulo renaming of the three task names) of
 register / register-interval / replace / cancel / loop-iteration / let-time-pass / shutdown on a bare TaskManager,
 checked against a reference reading of the statement (an active name is refused, a replacement starts after the
@@ -163,8 +167,11 @@ class Rec:
         self.marked: int | None = None
         self.outside_mark = 0
         self.probe_runs: list[str] = []
+        self.prefix: bytes | None = None # only sends with this community prefix are the overlay's (shared endpoint)
 
     def on_send(self, dst, data: bytes) -> None:  # noqa: ANN001
+        if self.prefix is not None and data[:22] != self.prefix:
+            return                               # another overlay of the same service
         self.log.append(("send", self.via or "task-or-timer", f"to {dst[0]} id {data[22] if len(data) > 22 else '-'}"))
 
     def on_handler(self, name: str) -> None:
@@ -254,6 +261,7 @@ class Ctx:
         self.label = label
         self.rec = Rec(w.loop)
         self.x: dict = {}          # scratch shared by the script's actions
+        self.task_prefixes: tuple | None = None   # set when other overlays share the node: only these names count
         self.harness_tasks: list = []
 
     @property
@@ -305,6 +313,15 @@ class Scenario:
 
     def stimulate(self, ctx: Ctx) -> None:
         """Fresh, valid requests of the peers to the (unloaded) node."""
+
+    def unload_awaitable(self, ctx: Ctx):  # noqa: ANN201
+        """What the application awaits to unload the overlay under test."""
+        return ctx.ov.unload()
+
+    quiesce_after: float | None = None      # seconds after the late traffic at which quiesce() is called
+
+    def quiesce(self, ctx: Ctx) -> None:
+        """Stop machinery of the scenario that is not the overlay under test and would tick for the whole 2 h."""
 
     def variants(self, thorough: bool = False) -> tuple:
         """
@@ -564,6 +581,96 @@ class HiddenScenario(TunnelScenario):
         return [*ph[:4], ("introduction-point", seed_swarm, 2.0), ph[4]]
 
 
+class TrivialCommunity2(TrivialCommunity):
+    community_id = unhexlify("c11c11c11c11c11c11c11c11c11c11c11c11c22c")
+
+
+class ServiceScenario(Scenario):
+    """
+    A real ipv8_service.IPv8 built from a configuration dict on the node's endpoint: three overlays sharing one key
+    and one endpoint, a RandomWalk each, ticking through IPv8's own on_tick task at the default walker interval; every
+    overlay knows the peer P.  The overlay under test is unloaded at run time with IPv8.unload_overlay().
+    """
+
+    CLASSES = ("TrivialCommunity", "TrivialCommunity2", "DiscoveryCommunity")
+
+    def __init__(self, which: int) -> None:
+        self.which = which
+        self.nut = "S"
+        self.name = f"IPv8Service/unload:{self.CLASSES[which]}"
+        self.label = f"{self.CLASSES[which]}@IPv8"
+
+    def variants(self, thorough: bool = False) -> tuple:
+        return (*VARIANTS[:2], *MID_VARIANTS)
+
+    def build(self, seed: int) -> Ctx:
+        from base64 import b64encode
+
+        from ipv8_service import IPv8
+
+        from .. import fixtures
+        w = TapWorld(("c11", self.name, seed))
+        ctx = Ctx(w, "S", self.label)
+        s_node = w.add_node("S", seed % 12)
+        p_node = w.add_node("P", (seed + 1) % 12)
+        extra = {"TrivialCommunity": TrivialCommunity, "TrivialCommunity2": TrivialCommunity2}
+        classes = {**extra, "DiscoveryCommunity": DiscoveryCommunity}
+        config = {
+            "interfaces": [], "working_directory": ".", "walker_interval": 0.5,
+            "logger": {"level": "CRITICAL"},
+            "keys": [{"alias": "my peer", "file": None,
+                      "bin": b64encode(fixtures.private_key(seed % 12, "curve25519").key_to_bin()).decode()}],
+            "overlays": [{"class": c, "key": "my peer", "initialize": {}, "on_start": [], "bootstrappers": [],
+                          "walkers": [{"strategy": "RandomWalk", "peers": 20, "init": {"timeout": 3.0}}]}
+                         for c in self.CLASSES],
+        }
+        tap = TapEndpoint(s_node.endpoint)
+        service = s_node.run(IPv8, config, endpoint_override=tap, extra_communities=extra)
+        s_node.my_peer = service.keys["my peer"]
+        s_node.my_peer.address = s_node.address
+        for o in service.overlays:
+            o.my_estimated_wan = s_node.address
+            o.my_estimated_lan = s_node.address
+            s_node.overlays.append(o)
+            s_node.taps[id(o)] = tap
+        ctx.x["service"] = service
+        ctx.x["overlays"] = {c: o for c, o in zip(self.CLASSES, service.overlays)}
+        ctx.x["peer_overlays"] = {c: p_node.add_overlay(classes[c]) for c in self.CLASSES}
+        ov = service.overlays[self.which]
+        ctx.ov_by = {"S": ov, "P": ctx.x["peer_overlays"][self.CLASSES[self.which]]}
+        ctx.rec.prefix = ov.get_prefix()
+        ctx.task_prefixes = (type(ov).__name__ + ":", *(("RequestCache:",) if hasattr(ov, "request_cache") else ()))
+        # every overlay of the service meets its counterpart on P before the enumerated part starts
+        for c in self.CLASSES:
+            s_node.run(ctx.x["overlays"][c].walk_to, p_node.address)
+        w.flush()
+        return ctx
+
+    def phases(self) -> list[tuple]:
+        def start(c: Ctx) -> None:
+            service = c.x["service"]
+            c.spawn("S", service.start)
+            c.w.loop.settle()
+            if service.state_machine_task is not None:
+                service.state_machine_task.set_name(HARNESS_TASK + "ipv8-ticker")   # the service's, not the overlay's
+        return [("start-service (two tick rounds)", start, 1.2)]
+
+    def unload_awaitable(self, ctx: Ctx):  # noqa: ANN201
+        return ctx.x["service"].unload_overlay(ctx.ov)
+
+    quiesce_after = 30.0        # 60 more tick rounds of the service after the unload, then its ticker is stopped
+
+    def quiesce(self, ctx: Ctx) -> None:
+        t = ctx.x["service"].state_machine_task
+        if t is not None and not t.done():
+            t.cancel()
+            ctx.w.loop.settle()
+
+    def stimulate(self, ctx: Ctx) -> None:
+        for c, o in ctx.x["peer_overlays"].items():
+            ctx.call("P", o.walk_to, ctx.nut.address)
+
+
 BONEH_SK = BonehPrivateKey.unserialize(unhexlify("01064c65dcb113f901064228da3ea57101064793a4f9c77901062b083e"
                                                  "8690fb0106408293c67e9f010601d1a9d3744901030f4243"))
 
@@ -678,6 +785,7 @@ def all_scenarios() -> list[Scenario]:
         TunnelScenario("R2", hops=3, quick=False), TunnelScenario("X", hops=3, quick=False),
         TunnelOnTunnelEndpoint("X"), TunnelOnTunnelEndpoint("O", quick=False), TunnelOnTunnelEndpoint("R", quick=False),
         HiddenScenario("O"), HiddenScenario("X"), HiddenScenario("R", quick=False),
+        ServiceScenario(0), ServiceScenario(1), ServiceScenario(2),
         IdentityScenario("A"), IdentityScenario("B"),
         WalletScenario("A", quick=False), WalletScenario("B"), WalletScenario("C"),
     ]
@@ -793,9 +901,10 @@ def pending_of(ctx: Ctx) -> tuple[list[str], list[str]]:
     nut = ctx.nut
     tasks = sorted(_norm_task_name(t.get_name()) for t in asyncio.all_tasks(loop)
                    if not t.done() and _task_node(t) is nut and not t.get_name().startswith(HARNESS_TASK)
-                   and PROBE_NAME not in t.get_name())
+                   and PROBE_NAME not in t.get_name()
+                   and (ctx.task_prefixes is None or t.get_name().startswith(ctx.task_prefixes)))
     timers = []
-    for h in loop._scheduled:  # noqa: SLF001
+    for h in ([] if ctx.task_prefixes is not None else loop._scheduled):  # noqa: SLF001
         if h._cancelled or h._context.get(CURRENT_NODE) is not nut:  # noqa: SLF001
             continue
         cb = h._callback  # noqa: SLF001
@@ -935,7 +1044,7 @@ def run_one(scn_name: str, k: int, variant: str, seed: int, thorough: bool):  # 
             w.send_hook = lambda dg: None if dg.sender is nut.endpoint else dg
         tok = CURRENT_NODE.set(nut)
         try:
-            fut = asyncio.ensure_future(ov.unload(), loop=loop)
+            fut = asyncio.ensure_future(scn.unload_awaitable(ctx), loop=loop)
         finally:
             CURRENT_NODE.reset(tok)
         fut.set_name(HARNESS_TASK + "unload")
@@ -1018,12 +1127,12 @@ def run_one(scn_name: str, k: int, variant: str, seed: int, thorough: bool):  # 
         w.flush()
 
         # ---- 2 hours --------------------------------------------------------------------------------------------
-        if thorough:
-            w.run_for(POST_UNLOAD_S)
-        else:
-            w.run_for(PEERS_OFF_AFTER_S)
+        first = scn.quiesce_after if scn.quiesce_after is not None else (POST_UNLOAD_S if thorough else PEERS_OFF_AFTER_S)
+        w.run_for(first)
+        scn.quiesce(ctx)
+        if not thorough:
             switch_off_peers(ctx)
-            w.run_for(POST_UNLOAD_S - PEERS_OFF_AFTER_S)
+        w.run_for(POST_UNLOAD_S - first)
 
         # ---- oracle over everything since unload() returned -----------------------------------------------------
         after = rec.after()
@@ -1442,6 +1551,8 @@ def run(ctx: core.Ctx) -> core.Report:
         "HiddenTunnelCommunity without an IPv8 service object (settings default): no PexCommunity is spawned; e2e "
         "rendezvous circuits are not scripted",
         "PythonCryptoEndpoint only; crypto primitives trusted; bootstrappers none",
+        "IPv8Service scenarios: the service's ticker is stopped 30 s after the unload (60 more tick rounds); tasks are "
+        "judged by the unloaded overlay's own TaskManager name prefixes because its sibling overlays share the node",
         "a task whose cancellation was requested is not counted as 'still active' for the refuse-active-name check",
         "quick tier switches the peers off 600 s after the unload (the remaining time only the node itself runs); "
         "thorough keeps them alive for the whole 2 h",
